@@ -655,6 +655,11 @@ func (rule *RuleExpression) checkIfCondition(str *String, workflowKey string) {
 			}
 		}
 		if err != nil {
+			if d := err.Offset - len(str.Value); d > 0 {
+				// The error is at the }} appended to the condition. Report it at the end of the condition
+				err.Offset -= d
+				err.Column -= d
+			}
 			rule.exprError(err, line, col)
 			return
 		}
